@@ -56,13 +56,15 @@ import (
 // rename (a result without RRCs loses values there: harness-mode artefacts, the engine is fine); the chain does not start with stats
 // (the searcher would compute it).
 //
+// A second op form, `planms …` (a DataProcessor with several input streams), is described in c06_planms.go.
+//
 // PropFail (independent of the model), X=1 only:
 //   - plan-parallel/<first bottleneck>/<class>: the answer under K chains and the given dealing ≠ the answer with GOMAXPROCS=1 and the
 //     table delivered as one batch
 //   - plan-semantics/<command>/<class>: that single-chain, single-batch answer ≠ the documented meaning (reference evaluator below)
 func init() {
 	register(&Suite{Name: "pipeplan", Gen: genPlan, Exec: execPlan,
-		Rule: "command chains of 1..5 commands (sort N, head, tail, dedup, fillnull ± field list, bin ± span, stats by, where, eval, rename, fields; shape-only: every other command kind) planned by the real SetupQueryParallelism under GOMAXPROCS 1..4 and run over tables of 0..14 rows dealt out to the parallel chains in random batches; chains mixing a two-pass command before / after the first bottleneck, sort limits around the number of rows; non-trivial = executed, ≥3 rows, ≥2 chains or ≥2 batches"})
+		Rule: "command chains of 1..5 commands (sort N, head, tail, dedup, fillnull ± field list, bin ± span, stats by, where, eval, rename, fields; shape-only: every other command kind) planned by the real SetupQueryParallelism under GOMAXPROCS 1..4 and run over tables of 0..14 rows dealt out to the parallel chains in random batches; chains mixing a two-pass command before / after the first bottleneck, sort limits around the number of rows; non-trivial = executed, ≥3 rows, ≥2 chains or ≥2 batches.  About 30% op form planms (c06_planms.go): the first DataProcessor of a chain of 1..3 commands of every executed kind (the two-pass bottlenecks in 40%) reads k = 1..4 sorted upstream streams directly (SetStreams + SetMergeSettingsBasedOnStream: timestamp order or the order and limit of an upstream sort), 0..12 rows, streams interleaving record by record in merge order in 65%, random / contiguous otherwise, some streams empty, batches of 1, 2, mixed 1..4 or whole streams; non-trivial = ≥3 rows in ≥2 streams"})
 }
 
 // suite "pipeplan_sort" (C05: order, limits, pagination): the same op format, machinery and Oracle answer as pipeplan, with the
@@ -314,7 +316,10 @@ type c06pOp struct {
 // well-formedness of an executed chain (the same fold is in lean/Oracle/C06P.lean): `ints` = columns that hold an int in every row,
 // `uniq` = the column whose values are pairwise distinct ("" after a stats without by: at most one row), `ordered` = the
 // order of the rows is determined.  Returns the comparison mode of the final answer.
-func c06pWF(cmds []c06pCmd, tableCols []string) (string, bool) {
+func c06pWF(cmds []c06pCmd, tableCols []string) (string, bool) { return c06pWFx(cmds, tableCols, false) }
+
+// statsFirstOK: op planms (the first DataProcessor reads replaying streams, there is no searcher that would compute the stats)
+func c06pWFx(cmds []c06pCmd, tableCols []string, statsFirstOK bool) (string, bool) {
 	ints := map[string]bool{"id": true, "x": true, "w": true}
 	cols := map[string]bool{"id": true, "x": true, "w": true} // columns every batch carries (a result without RRCs cannot be sorted by a column it lacks)
 	for _, k := range tableCols {
@@ -433,7 +438,7 @@ func c06pWF(cmds []c06pCmd, tableCols []string) (string, bool) {
 			ints[c.g] = true
 			cols[c.g] = true
 		case "stats":
-			if i == 0 {
+			if i == 0 && !statsFirstOK {
 				return "", false
 			}
 			n := map[string]bool{}
@@ -1114,6 +1119,9 @@ func execPlan(line string) Result { return execPlanMode(line, false) }
 
 // c05: phrase the direct property checks as C05 (order, limits) states them
 func execPlanMode(line string, c05 bool) Result {
+	if strings.HasPrefix(line, "planms ") && !c05 {
+		return c06pmExec(line)
+	}
 	op, ok := c06pParseOp(line)
 	if !ok {
 		return Result{Out: "bad-op", Tags: []string{"bad-op"}}
@@ -1416,7 +1424,14 @@ func genPlan(r *rand.Rand, n int, tier string) []string {
 		"plan K=4 X=0 C=where:x:gt:1|top:s S= R=",
 		"plan K=2 X=0 C=stats:count.c:s|sort:0:+s S= R=",
 	}
+	out = append(out, c06pmCorpus...)
 	for len(out) < n {
+		if r.Intn(100) < 30 { // a DataProcessor with several input streams (c06_planms.go)
+			if l := c06pmGen(r); l != "" {
+				out = append(out, l)
+			}
+			continue
+		}
 		switch q := r.Intn(100); {
 		case q < 3: // malformed
 			out = append(out, []string{
